@@ -150,14 +150,19 @@ class Ed25519Key(PKey):
             key_data = message.get_binary()
             # The second half of the key data is yet another copy of the public
             # key...
-            signing_key = nacl.signing.SigningKey(key_data[:32])
+            try:
+                signing_key = nacl.signing.SigningKey(key_data[:32])
+            except (nacl.exceptions.CryptoError, TypeError):
+                # e.g. a seed that is not 32 bytes long
+                raise SSHException("Invalid key")
             # Verify that all the public keys are the same...
-            assert (
+            if not (
                 signing_key.verify_key.encode()
                 == public
                 == public_keys[i]
                 == key_data[32:]
-            )
+            ):
+                raise SSHException("Invalid key")
             signing_keys.append(signing_key)
             # Comment, ignore.
             message.get_binary()
